@@ -138,6 +138,10 @@ def expected_part(fmt, mts):
 
 def check_cli(fmt, size, spec, use_filter, src_fmt='export', encs=None):
     mts = bank(size, special=src_fmt in ('export', 'tigerxml'))
+    if use_filter == 2:
+        for m in mts:
+            if m.n() >= 2:
+                m.toks[-1]['word'] = '.'
     case = {'cli': True, 'fmt': fmt, 'size': size, 'spec': spec, 'filter': use_filter, 'src_fmt': src_fmt, 'encs': encs}
     out = []
 
@@ -162,7 +166,12 @@ def check_cli(fmt, size, spec, use_filter, src_fmt='export', encs=None):
     if encs:
         argv += ['--src-enc', src_enc, '--dest-enc', dest_enc]
     kept = mts
-    if use_filter:
+    if use_filter == 2:
+        # "at most two words, punctuation not counted": the length that decides is the length after the deletion
+        argv += ['--trans', 'punctuation_delete', 'filter_by_length', '--params', 'filteroperator:gt', 'filtervalue:2', 'quiet']
+        from .c11 import ref_delete
+        kept = [m2 for m2 in (ref_delete(m, [m.n()]) if m.n() >= 2 else m for m in mts) if m2.n() <= 2]
+    elif use_filter:
         argv += ['--trans', 'filter_by_length', '--params', 'filteroperator:gt', 'filtervalue:2']
         kept = [m for m in mts if m.n() <= 2]
     exp_parts = ref_split(spec, len(kept))
@@ -348,6 +357,11 @@ def run_chunk(chunk):
                     src_fmt = srcs[(si + use_filter) % len(srcs)] if chunk['size'] else 'export'
                     vs, nt = check_cli(chunk['fmt'], chunk['size'], spec, use_filter, src_fmt)
                     take(vs, nt, (chunk['fmt'], chunk['size'], spec, use_filter, src_fmt))
+            if chunk['size'] >= 2:
+                for spec2 in ('1#_rest', '50%_50%', 'rest', '2#_rest'):
+                    for src_fmt in ('export', 'tigerxml'):
+                        vs, nt = check_cli(chunk['fmt'], chunk['size'], spec2, 2, src_fmt)
+                        take(vs, nt, (chunk['fmt'], chunk['size'], spec2, 'delete+filter', src_fmt))
             if chunk['size'] >= 2:
                 for encs in (('latin-1', 'utf-8'), ('utf-8', 'latin-1'), ('utf-16', 'utf-8')):
                     for spec2 in ('1#_rest', '50%_50%'):
